@@ -15,6 +15,45 @@ use crate::Region;
 
 pub mod locks;
 
+// ------------------------------------------------------------------------------------------------
+// pause points: named places (not lock operations) where a thread can be held until a controller releases it
+// ------------------------------------------------------------------------------------------------
+static PAUSE_ON: AtomicBool = AtomicBool::new(false);
+static PAUSE: (Mutex<(u64, u64, String)>, parking_lot::Condvar) = (Mutex::new((0, 0, String::new())), parking_lot::Condvar::new());
+
+/// Enables pausing at the point called `name` (empty = disable); resets the counters.
+pub fn pause_at(name: &str) {
+    *PAUSE.0.lock() = (0, 0, name.to_string());
+    PAUSE_ON.store(!name.is_empty(), Ordering::SeqCst);
+    PAUSE.1.notify_all();
+}
+
+/// Number of threads that have reached the enabled pause point so far.
+pub fn pause_arrived() -> u64 {
+    PAUSE.0.lock().0
+}
+
+/// Lets `n` more arrivals (in arrival order) continue.
+pub fn pause_release(n: u64) {
+    PAUSE.0.lock().1 += n;
+    PAUSE.1.notify_all();
+}
+
+#[inline]
+pub fn pause_point(name: &str) {
+    if PAUSE_ON.load(Ordering::Relaxed) {
+        let mut g = PAUSE.0.lock();
+        if g.2 != name {
+            return;
+        }
+        g.0 += 1;
+        let ticket = g.0;
+        while PAUSE_ON.load(Ordering::Relaxed) && g.1 < ticket {
+            PAUSE.1.wait(&mut g);
+        }
+    }
+}
+
 #[derive(Debug, Clone, PartialEq, Eq)]
 pub enum IoEvent {
     /// bytes copied into the data-file mapping at `off`
